@@ -1,5 +1,6 @@
 import SemVerif.Lemmas.T2Stmt
 import SemVerif.Lemmas.T1Ctl
+import SemVerif.Lemmas.PanicConv
 /-!
 # Lemmas/T2Ctl — family T2, control constructs and whole function bodies
 
@@ -251,12 +252,12 @@ variable {g : Globals} {rg : RGlobals}
 
 mutual
 theorem den_ifCondition (hg : GlobRel g rg) (hn : GNames g) : ∀ (i : IfStmt) (le : Option Name) (ll : Option (Name × Name)),
-    IfStmt.loopOK ll.isSome i = true → CtD (ifCondition g i le ll) (specIf false rg i)
+    IfStmt.anaOK ll.isSome i = true → CtD (ifCondition g i le ll) (specIf false rg i)
   | .mk cond body els elif, labelEnd, labelLoop => by
     intro hok s ss hr he
-    unfold IfStmt.loopOK at hok
+    unfold IfStmt.anaOK at hok
     simp only [Bool.and_eq_true] at hok
-    obtain ⟨⟨hb, hel⟩, hei⟩ := hok
+    obtain ⟨hb, hrest⟩ := hok
     unfold ifCondition at he ⊢
     unfold specIf
     dsimp only at he ⊢
@@ -331,7 +332,7 @@ theorem den_ifCondition (hg : GlobRel g rg) (hn : GNames g) : ∀ (i : IfStmt) (
     | some eb =>
       dsimp only at e4 ⊢
       rw [(quiet_ifAfterElse _ _ _ _).errors] at e4
-      have h4 := den_ifBodies hg hn eb lEnd labelLoop hel s3.enter _ (drel_enter r3 (quiet_enter s3) (vals_enter s3)) e4
+      have h4 := den_ifBodies hg hn eb lEnd labelLoop hrest s3.enter _ (drel_enter r3 (quiet_enter s3) (vals_enter s3)) e4
       generalize ifBodies g eb lEnd labelLoop s3.enter = q4 at h4 ⊢
       obtain ⟨s4, r4⟩ := q4
       dsimp only at h4 ⊢
@@ -347,29 +348,29 @@ theorem den_ifCondition (hg : GlobRel g rg) (hn : GNames g) : ∀ (i : IfStmt) (
       cases elif with
       | some ei =>
         dsimp only at e4 ⊢
-        obtain ⟨r5, l5⟩ := den_ifCondition hg hn ei (some lEnd) labelLoop hei s3 _ r3 e4
+        obtain ⟨r5, l5⟩ := den_ifCondition hg hn ei (some lEnd) labelLoop hrest s3 _ r3 e4
         exact ⟨r5, by rw [l5, l3]⟩
       | none => exact ⟨r3, l3⟩
 theorem den_ifBodies (hg : GlobRel g rg) (hn : GNames g) : ∀ (b : IfBodies) (lEnd : Name) (ll : Option (Name × Name)),
-    IfBodies.loopOK ll.isSome b = true → ∀ s ss, DRel s ss → (ifBodies g b lEnd ll s).1.errors = s.errors →
+    IfBodies.anaOK ll.isSome b = true → ∀ s ss, DRel s ss → (ifBodies g b lEnd ll s).1.errors = s.errors →
       DRel (ifBodies g b lEnd ll s).1 (specBodies false rg b ss) ∧ (ifBodies g b lEnd ll s).1.inner.length = s.inner.length
   | .ifb l, lEnd, ll => by
     intro hok s ss hr he
-    unfold IfBodies.loopOK at hok
+    unfold IfBodies.anaOK at hok
     unfold ifBodies at he ⊢
     unfold specBodies
     exact den_ifBody hg hn l lEnd ll false hok s ss hr he
   | .loopb l, lEnd, some (lb, le) => by
     intro hok s ss hr he
-    unfold IfBodies.loopOK at hok
+    unfold IfBodies.anaOK at hok
     simp at hok
     unfold ifBodies at he ⊢
     unfold specBodies
     exact den_ifLoopBody hg hn l lEnd lb le false false false hok s ss hr he
   | .loopb _, _, none => by
-    intro hok; unfold IfBodies.loopOK at hok; simp at hok
+    intro hok; unfold IfBodies.anaOK at hok; simp at hok
 theorem den_ifBody (hg : GlobRel g rg) (hn : GNames g) : ∀ (l : List IfBodyStmt) (lEnd : Name) (ll : Option (Name × Name)) (rc : Bool),
-    IfBodyStmt.loopOKL ll.isSome l = true → ∀ s ss, DRel s ss → (ifBody g l lEnd ll rc s).1.errors = s.errors →
+    IfBodyStmt.anaOKL ll.isSome l = true → ∀ s ss, DRel s ss → (ifBody g l lEnd ll rc s).1.errors = s.errors →
       DRel (ifBody g l lEnd ll rc s).1 (specIfBody false rg l ss) ∧ (ifBody g l lEnd ll rc s).1.inner.length = s.inner.length
   | [], _, _, _ => by
     intro _ s ss hr _
@@ -381,28 +382,28 @@ theorem den_ifBody (hg : GlobRel g rg) (hn : GNames g) : ∀ (l : List IfBodyStm
     dsimp only at he ⊢
     cases st with
     | letB b =>
-      unfold IfBodyStmt.loopOKL at hok
+      unfold IfBodyStmt.anaOKL at hok
       unfold specIfBody
       exact body_step rc false false hr (esteps_letBinding g b _).errors_ext (steps_ifBody g tl lEnd ll rc _).errors_ext he
         (ctd_of_std (den_let hg hn b) (esteps_letBinding g b) _ _) (den_ifBody hg hn tl lEnd ll rc hok _ _)
     | bind b =>
-      unfold IfBodyStmt.loopOKL at hok
+      unfold IfBodyStmt.anaOKL at hok
       unfold specIfBody
       exact body_step rc false false hr (esteps_binding g b _).errors_ext (steps_ifBody g tl lEnd ll rc _).errors_ext he
         (ctd_of_std (den_bind hg hn b) (esteps_binding g b) _ _) (den_ifBody hg hn tl lEnd ll rc hok _ _)
     | call c =>
-      unfold IfBodyStmt.loopOKL at hok
+      unfold IfBodyStmt.anaOKL at hok
       unfold specIfBody
       exact body_step rc false false hr (esteps_callStmt g c _).errors_ext (steps_ifBody g tl lEnd ll rc _).errors_ext he
         (ctd_of_std (den_callS hg hn c) (esteps_callStmt g c) _ _) (den_ifBody hg hn tl lEnd ll rc hok _ _)
     | ifS i =>
-      unfold IfBodyStmt.loopOKL at hok
+      unfold IfBodyStmt.anaOKL at hok
       simp only [Bool.and_eq_true] at hok
       unfold specIfBody
       exact body_step rc false false hr (steps_ifCondition g i (some lEnd) ll _).errors_ext (steps_ifBody g tl lEnd ll rc _).errors_ext he
         (den_ifCondition hg hn i (some lEnd) ll hok.1 _ _) (den_ifBody hg hn tl lEnd ll rc hok.2 _ _)
     | loop b =>
-      unfold IfBodyStmt.loopOKL at hok
+      unfold IfBodyStmt.anaOKL at hok
       simp only [Bool.and_eq_true] at hok
       unfold specIfBody
       exact body_step rc false false hr (steps_loopWrap _ (steps_loopBody g b) _).errors_ext (steps_ifBody g tl lEnd ll rc _).errors_ext he
@@ -410,7 +411,7 @@ theorem den_ifBody (hg : GlobRel g rg) (hn : GNames g) : ∀ (l : List IfBodyStm
           (fun lb le s ss => den_loopBody hg hn b lb le false false false hok.1 s ss) _ _)
         (den_ifBody hg hn tl lEnd ll rc hok.2 _ _)
     | ret e =>
-      unfold IfBodyStmt.loopOKL at hok
+      unfold IfBodyStmt.anaOKL at hok
       unfold specIfBody
       dsimp only at he ⊢
       have x1 := (steps_nestedReturn g e (forbidden rc false false s)).errors_ext
@@ -422,7 +423,7 @@ theorem den_ifBody (hg : GlobRel g rg) (hn : GNames g) : ∀ (l : List IfBodyStm
       exact body_step rc false false hr x1 (steps_ifBody g tl lEnd ll (rc || r) s1).errors_ext he
         (fun hr he => ⟨h1 hr he, l1⟩) (den_ifBody hg hn tl lEnd ll (rc || r) hok _ _)
 theorem den_ifLoopBody (hg : GlobRel g rg) (hn : GNames g) : ∀ (l : List IfLoopStmt) (lEnd lb le : Name) (rc bc cc : Bool),
-    IfLoopStmt.loopOKL l = true → ∀ s ss, DRel s ss → (ifLoopBody g l lEnd lb le rc bc cc s).1.errors = s.errors →
+    IfLoopStmt.anaOKL l = true → ∀ s ss, DRel s ss → (ifLoopBody g l lEnd lb le rc bc cc s).1.errors = s.errors →
       DRel (ifLoopBody g l lEnd lb le rc bc cc s).1 (specIfLoopBody false rg l ss) ∧
       (ifLoopBody g l lEnd lb le rc bc cc s).1.inner.length = s.inner.length
   | [], _, _, _, _, _, _ => by
@@ -435,29 +436,29 @@ theorem den_ifLoopBody (hg : GlobRel g rg) (hn : GNames g) : ∀ (l : List IfLoo
     dsimp only at he ⊢
     cases st with
     | letB b =>
-      unfold IfLoopStmt.loopOKL at hok
+      unfold IfLoopStmt.anaOKL at hok
       unfold specIfLoopBody
       exact body_step rc bc cc hr (esteps_letBinding g b _).errors_ext (steps_ifLoopBody g tl lEnd lb le rc bc cc _).errors_ext he
         (ctd_of_std (den_let hg hn b) (esteps_letBinding g b) _ _) (den_ifLoopBody hg hn tl lEnd lb le rc bc cc hok _ _)
     | bind b =>
-      unfold IfLoopStmt.loopOKL at hok
+      unfold IfLoopStmt.anaOKL at hok
       unfold specIfLoopBody
       exact body_step rc bc cc hr (esteps_binding g b _).errors_ext (steps_ifLoopBody g tl lEnd lb le rc bc cc _).errors_ext he
         (ctd_of_std (den_bind hg hn b) (esteps_binding g b) _ _) (den_ifLoopBody hg hn tl lEnd lb le rc bc cc hok _ _)
     | call c =>
-      unfold IfLoopStmt.loopOKL at hok
+      unfold IfLoopStmt.anaOKL at hok
       unfold specIfLoopBody
       exact body_step rc bc cc hr (esteps_callStmt g c _).errors_ext (steps_ifLoopBody g tl lEnd lb le rc bc cc _).errors_ext he
         (ctd_of_std (den_callS hg hn c) (esteps_callStmt g c) _ _) (den_ifLoopBody hg hn tl lEnd lb le rc bc cc hok _ _)
     | ifS i =>
-      unfold IfLoopStmt.loopOKL at hok
+      unfold IfLoopStmt.anaOKL at hok
       simp only [Bool.and_eq_true] at hok
       unfold specIfLoopBody
       exact body_step rc bc cc hr (steps_ifCondition g i (some lEnd) (some (lb, le)) _).errors_ext
         (steps_ifLoopBody g tl lEnd lb le rc bc cc _).errors_ext he
         (den_ifCondition hg hn i (some lEnd) (some (lb, le)) hok.1 _ _) (den_ifLoopBody hg hn tl lEnd lb le rc bc cc hok.2 _ _)
     | loop b =>
-      unfold IfLoopStmt.loopOKL at hok
+      unfold IfLoopStmt.anaOKL at hok
       simp only [Bool.and_eq_true] at hok
       unfold specIfLoopBody
       exact body_step rc bc cc hr (steps_loopWrap _ (steps_loopBody g b) _).errors_ext
@@ -466,7 +467,7 @@ theorem den_ifLoopBody (hg : GlobRel g rg) (hn : GNames g) : ∀ (l : List IfLoo
           (fun lb le s ss => den_loopBody hg hn b lb le false false false hok.1 s ss) _ _)
         (den_ifLoopBody hg hn tl lEnd lb le rc bc cc hok.2 _ _)
     | ret e =>
-      unfold IfLoopStmt.loopOKL at hok
+      unfold IfLoopStmt.anaOKL at hok
       unfold specIfLoopBody
       dsimp only at he ⊢
       have x1 := (steps_nestedReturn g e (forbidden rc bc cc s)).errors_ext
@@ -478,19 +479,19 @@ theorem den_ifLoopBody (hg : GlobRel g rg) (hn : GNames g) : ∀ (l : List IfLoo
       exact body_step rc bc cc hr x1 (steps_ifLoopBody g tl lEnd lb le (rc || r) bc cc s1).errors_ext he
         (fun hr he => ⟨h1 hr he, l1⟩) (den_ifLoopBody hg hn tl lEnd lb le (rc || r) bc cc hok _ _)
     | cont =>
-      unfold IfLoopStmt.loopOKL at hok
+      unfold IfLoopStmt.anaOKL at hok
       unfold specIfLoopBody
       exact body_step rc bc cc hr ⟨[], by simp [St.push, St.mapFrames]⟩ (steps_ifLoopBody g tl lEnd lb le rc bc true _).errors_ext he
         (fun hr _ => ⟨drel_same hr (quiet_push _ (skipped_jumpTo _) _) (vals_push _ _), (push_fields _ _).2⟩)
         (den_ifLoopBody hg hn tl lEnd lb le rc bc true hok _ _)
     | brk =>
-      unfold IfLoopStmt.loopOKL at hok
+      unfold IfLoopStmt.anaOKL at hok
       unfold specIfLoopBody
       exact body_step rc bc cc hr ⟨[], by simp [St.push, St.mapFrames]⟩ (steps_ifLoopBody g tl lEnd lb le rc true cc _).errors_ext he
         (fun hr _ => ⟨drel_same hr (quiet_push _ (skipped_jumpTo _) _) (vals_push _ _), (push_fields _ _).2⟩)
         (den_ifLoopBody hg hn tl lEnd lb le rc true cc hok _ _)
 theorem den_loopBody (hg : GlobRel g rg) (hn : GNames g) : ∀ (l : List LoopStmt) (lb le : Name) (rc bc cc : Bool),
-    LoopStmt.loopOKL l = true → ∀ s ss, DRel s ss → (loopBody g l lb le rc bc cc s).1.errors = s.errors →
+    LoopStmt.anaOKL l = true → ∀ s ss, DRel s ss → (loopBody g l lb le rc bc cc s).1.errors = s.errors →
       DRel (loopBody g l lb le rc bc cc s).1 (specLoopBody false rg l ss) ∧
       (loopBody g l lb le rc bc cc s).1.inner.length = s.inner.length
   | [], _, _, _, _, _ => by
@@ -503,29 +504,29 @@ theorem den_loopBody (hg : GlobRel g rg) (hn : GNames g) : ∀ (l : List LoopStm
     dsimp only at he ⊢
     cases st with
     | letB b =>
-      unfold LoopStmt.loopOKL at hok
+      unfold LoopStmt.anaOKL at hok
       unfold specLoopBody
       exact body_step rc bc cc hr (esteps_letBinding g b _).errors_ext (steps_loopBody g tl lb le rc bc cc _).errors_ext he
         (ctd_of_std (den_let hg hn b) (esteps_letBinding g b) _ _) (den_loopBody hg hn tl lb le rc bc cc hok _ _)
     | bind b =>
-      unfold LoopStmt.loopOKL at hok
+      unfold LoopStmt.anaOKL at hok
       unfold specLoopBody
       exact body_step rc bc cc hr (esteps_binding g b _).errors_ext (steps_loopBody g tl lb le rc bc cc _).errors_ext he
         (ctd_of_std (den_bind hg hn b) (esteps_binding g b) _ _) (den_loopBody hg hn tl lb le rc bc cc hok _ _)
     | call c =>
-      unfold LoopStmt.loopOKL at hok
+      unfold LoopStmt.anaOKL at hok
       unfold specLoopBody
       exact body_step rc bc cc hr (esteps_callStmt g c _).errors_ext (steps_loopBody g tl lb le rc bc cc _).errors_ext he
         (ctd_of_std (den_callS hg hn c) (esteps_callStmt g c) _ _) (den_loopBody hg hn tl lb le rc bc cc hok _ _)
     | ifS i =>
-      unfold LoopStmt.loopOKL at hok
+      unfold LoopStmt.anaOKL at hok
       simp only [Bool.and_eq_true] at hok
       unfold specLoopBody
       exact body_step rc bc cc hr (steps_ifCondition g i none (some (lb, le)) _).errors_ext
         (steps_loopBody g tl lb le rc bc cc _).errors_ext he
         (den_ifCondition hg hn i none (some (lb, le)) hok.1 _ _) (den_loopBody hg hn tl lb le rc bc cc hok.2 _ _)
     | loop b =>
-      unfold LoopStmt.loopOKL at hok
+      unfold LoopStmt.anaOKL at hok
       simp only [Bool.and_eq_true] at hok
       unfold specLoopBody
       exact body_step rc bc cc hr (steps_loopWrap _ (steps_loopBody g b) _).errors_ext
@@ -534,7 +535,7 @@ theorem den_loopBody (hg : GlobRel g rg) (hn : GNames g) : ∀ (l : List LoopStm
           (fun lb le s ss => den_loopBody hg hn b lb le false false false hok.1 s ss) _ _)
         (den_loopBody hg hn tl lb le rc bc cc hok.2 _ _)
     | ret e =>
-      unfold LoopStmt.loopOKL at hok
+      unfold LoopStmt.anaOKL at hok
       unfold specLoopBody
       dsimp only at he ⊢
       have x1 := (steps_nestedReturn g e (forbidden rc bc cc s)).errors_ext
@@ -546,13 +547,13 @@ theorem den_loopBody (hg : GlobRel g rg) (hn : GNames g) : ∀ (l : List LoopStm
       exact body_step rc bc cc hr x1 (steps_loopBody g tl lb le (rc || r) bc cc s1).errors_ext he
         (fun hr he => ⟨h1 hr he, l1⟩) (den_loopBody hg hn tl lb le (rc || r) bc cc hok _ _)
     | brk =>
-      unfold LoopStmt.loopOKL at hok
+      unfold LoopStmt.anaOKL at hok
       unfold specLoopBody
       exact body_step rc bc cc hr ⟨[], by simp [St.push, St.mapFrames]⟩ (steps_loopBody g tl lb le rc true cc _).errors_ext he
         (fun hr _ => ⟨drel_same hr (quiet_push _ (skipped_jumpTo _) _) (vals_push _ _), (push_fields _ _).2⟩)
         (den_loopBody hg hn tl lb le rc true cc hok _ _)
     | cont =>
-      unfold LoopStmt.loopOKL at hok
+      unfold LoopStmt.anaOKL at hok
       unfold specLoopBody
       exact body_step rc bc cc hr ⟨[], by simp [St.push, St.mapFrames]⟩ (steps_loopBody g tl lb le rc bc true _).errors_ext he
         (fun hr _ => ⟨drel_same hr (quiet_push _ (skipped_jumpTo _) _) (vals_push _ _), (push_fields _ _).2⟩)
